@@ -8,7 +8,10 @@ _GEN = ("Decides the structural clauses listed in DESIGN.md section 5 for this p
         "the counts compared (11.5, 12.3); a function that differs from its reference form is analysed in that form only when "
         "value numbering over gated alternatives proves the two equivalent (12.4). The thorough tier adds the mutant/equivalent "
         "corpora, whole-repository rewrites, a single-edit mutation analysis of the anchored functions, and measurements on the "
-        "independently produced seeded regressions and benign refactorings of this property. ")
+        "independently produced seeded regressions and benign refactorings of this property. Every check also confirms on every "
+        "run the schema its rules read the code through (each getter returns exactly its slot, ndim / centre / edges are the "
+        "documented expressions, _dim2index is the position in dims, array2tuple keeps coordinate order; DESIGN.md 13.6) and "
+        "uses a class invariant in a condition only after confirming it from the source (13.3). ")
 
 CLAIMS = {
     "C08": {
@@ -54,7 +57,7 @@ CLAIMS = {
         "level": _GEN + "For C13: every store to a Region/Mesh/Field slot is in the slot's owner set and stores an ordered corner "
                  "pair / validated value; translate and scale realise x+v and R+s(x-R) on both corners and keep n; the in-place "
                  "form returns self and stores what the copy form's constructor would store, the copy form never writes self; "
-                 "mesh-level steps apply the identical step to region and subregions; no raise can follow a mutation.",
+                 "mesh-level steps apply the identical step to region and subregions; no raise can follow a mutation. All three in-place Region steps refuse a result without extent on the corners they are about to store, and in-place mesh steps provoke the refusals of every subregion (dry run of the copying form) before the first in-place call.",
         "note": "Undecided: invariants after sequences beyond per-step preservation (induction is left to the reader), float "
                 "equality of in-place and copy results. Shared Mesh/Region objects between fields are a documented design choice.",
     },
@@ -76,7 +79,7 @@ CLAIMS = {
         "level": _GEN + "For C02: every specification kind yields shape (*n, nvdim); dictionary values are written in reversed listing "
                  "order into region2slices blocks keyed consistently, defaults fill exactly the sentinel cells cell by cell; "
                  "function values pair index and centre of the same cell; sampling, iteration, component access and line sampling "
-                 "use the documented lookups; wrong types/component counts are refused before anything is stored.",
+                 "use the documented lookups; wrong types/component counts are refused before anything is stored. Line takes its points as one row per point (one-dimensional meshes yield plain numbers).",
         "note": "Undecided: numeric equality of stored values with the specification (dtype casting, NaN sentinel colliding with "
                 "NaN data, nearest-cell ties). Trusted: xarray nearest selection, np.full broadcasting, np.argwhere.",
     },
@@ -146,7 +149,7 @@ CLAIMS = {
         "level": _GEN + "For C10: every Region/Mesh/Field state slot named in the statement is written and read back under the same "
                  "key and passed to the matching constructor keyword; None-valued vdims/unit are encoded and decoded symmetrically; "
                  "the subregion table's dtype is derived from the subregion corners; array keeps its own dtype and validity is "
-                 "Boolean; the legacy layout is dispatched and its construction binds nvdim.",
+                 "Boolean; the legacy layout is dispatched and its construction binds nvdim. Both readers hand the dtype of the stored dataset back to the constructor (int64 / float32 values stay what was written).",
         "note": "Undecided: bit-identical values and h5py's own behaviour. Noted, not reported: Field's dtype slot is not restored "
                 "(int fields come back as float64 with equal values; Field equality ignores dtype).",
     },
@@ -212,7 +215,7 @@ CLAIMS = {
                  "field.orientation; the continuous density, the four lattice triangles with their bounds/validity tests, the "
                  "emergent-field components and the Bloch-point integration chain have the documented form; neighbouring-cell "
                  "angles slice and shrink only the named axis and clip before arccos; every demagnetisation-tensor element offsets "
-                 "each coordinate by its own axis' cell length, components are stacked xx,yy,zz,xy,xz,yz and contracted symmetrically.",
+                 "each coordinate by its own axis' cell length, components are stacked xx,yy,zz,xy,xz,yz and contracted symmetrically. Newell's auxiliary functions f and g are the published formulas (compared as rational expressions over sqrt / arcsinh / arctan with zero-guards and moduli removed) and each tensor element uses the one that belongs to it.",
         "note": "Undecided: integer charges, rotational invariances, trace -1, agreement of the two tensor routes (they share _N), "
                 "the -|M| sum rule numerically.",
     },
